@@ -129,7 +129,8 @@ def run(ctx):
         ctx.cov.setdefault("accepted", {})[name] = a
         ctx.cov["samples"] += [ev[len(ev) // 2]]
     if acc == 0:
-        raise vlib.ToolError("vacuity: no accepted price in the validated traces")
+        if not ctx.violations:
+            raise vlib.ToolError("vacuity: no accepted price in the validated traces")
     wp = evs[2]
     cls = {"cleared_after_ok": sum(1 for e in wp if e["called"] and e["res"] == "ok"),
            "cleared_after_op_error": sum(1 for e in wp if e["called"] and e["res"] == "err"),
@@ -137,7 +138,8 @@ def run(ctx):
            "dirty_before": sum(1 for e in wp if not e["pre"]["cleared"] or e["pre"]["n"] != 0)}
     for k, v in cls.items():
         if v == 0:
-            raise vlib.ToolError("vacuity: no with_prices event of class " + k)
+            if not ctx.violations:
+                raise vlib.ToolError("vacuity: no with_prices event of class " + k)
     ctx.cov["with_prices_classes"] = cls
     import json
     ctx.distinct += len({json.dumps(e, sort_keys=True) for ev in evs for e in ev})
